@@ -5,7 +5,8 @@ import GqlModel
 -/
 open Gql
 
-def allOps : List (String × (List String → String)) := Ops.lexOps
+/-- every op receives the words after the op name -/
+def allOps : List (String × (List String → String)) := Ops.lexOps ++ Ops.wireOps
 
 def handle (line : String) : String :=
   match (line.trimAscii.toString.splitOn " ").filter (· ≠ "") with
